@@ -8,11 +8,18 @@
   supervisor entries at the OS vectors (C08.real_trap_vectoring); and on the current (regenerated) OS image those
   vectors point at handlers that print exactly the message for that exception with PUTS and then HALT
   (`exception_handlers`), HALT being the MCR-clearing loop (C11.halt_listing).
-  The whole-program statement (same display, R0-R5 and user memory) composes these with C11's routine contracts; it is
-  checked end-to-end by the correspondence oracle (paired virtual/real runs) until those contracts are theorems.
+  Session 5: (`real_step_same`, `real_prefix_same`, `real_run_same`, Lemmas/RealRel) as long as the virtual-trap run
+  has not reached HALT or an exception the real-trap run is in the same state; at HALT (`real_halt_through_os`) the
+  OS routine clears MCR and nothing else a user program can observe changes; at an exception
+  (`real_exception_prints`, Lemmas/OsExc) `step` enters the handler, the display receives exactly the OS message for
+  that exception and the machine halts through the OS.  These use C11's routine contracts (PUTS, HALT), hence their
+  hypotheses (OS loaded, non-strict, supervisor stack in plain memory, quiet poll at the instruction boundaries).
+  The concatenation of prefix + final segment into one `run` statement is checked end-to-end by the correspondence
+  oracle (paired virtual/real runs).
 -/
 import Lc3V.Props.C11
 import Lc3V.Lemmas.RealRel
+import Lc3V.Lemmas.OsExc
 namespace Lc3V.C12
 open Lc3V Sim SimM
 
@@ -82,8 +89,75 @@ theorem real_run_same (tw : Tripwire) (fuel iter : Nat) (s s' : Sim) (p : Pause)
   · cases he
   · exact hrr
 
+set_option maxRecDepth 100000 in
+/-- the three exception vectors are defined and their messages end in a zero word inside the image -/
+theorem exception_terms :
+    (C11.osWord 0x100).isSome = true ∧ (C11.osWord 0x101).isSome = true ∧ (C11.osWord 0x102).isSome = true ∧
+    Rt.chkMsgTerm (C11.vec 0x100) (C11.str "\n--- Privilege violation ---").length = true ∧
+    Rt.chkMsgTerm (C11.vec 0x101) (C11.str "\n--- Illegal opcode ---").length = true ∧
+    Rt.chkMsgTerm (C11.vec 0x102) (C11.str "\n--- Access violation ---").length = true ∧
+    (C11.str "\n--- Privilege violation ---").length < 64 ∧ (C11.str "\n--- Illegal opcode ---").length < 64 ∧
+    (C11.str "\n--- Access violation ---").length < 64 := by decide +kernel
+
+/-- which OS vector and message belong to an exception -/
+def excVector : SimErr → Option (Nat × String)
+  | .privilegeViolation => some (0x100, "\n--- Privilege violation ---")
+  | .illegalOpcode => some (0x101, "\n--- Illegal opcode ---")
+  | .invalidInstrFormat => some (0x101, "\n--- Illegal opcode ---")
+  | .accessViolation => some (0x102, "\n--- Access violation ---")
+  | _ => none
+
+/-- **exceptions under real traps.** If the inner step fails with a privilege, illegal-instruction or access
+    exception in state `s'` and real traps are enabled there, then the public `step` enters the OS handler instead
+    of reporting the error, and after finitely many further instructions the display has received exactly the OS
+    message for that exception and the machine has halted through the OS (MCR bit clear), registers R1-R5 untouched -/
+theorem real_exception_prints (s s' : Sim) (e : SimErr) (vect : Nat) (msg : String) (d' : DevHandler)
+    (hin : stepInner s = (.error (.err e), s')) (hv : excVector e = some (vect, msg))
+    (hr : s'.flags.realTraps = true) (hos : Rt.OsLoaded s') (hs : s'.flags.strict = false)
+    (h1 : 767 ≤ (C10.entrySp s' - 1).toNat ∧ (C10.entrySp s' - 1).toNat < IO_START)
+    (h2 : 767 ≤ (C10.entrySp s' - 2).toNat ∧ (C10.entrySp s' - 2).toNat < IO_START)
+    (h3 : 767 ≤ (C10.entrySp s' - 3).toNat ∧ (C10.entrySp s' - 3).toNat < IO_START)
+    (h4 : 767 ≤ (C10.entrySp s' - 4).toNat ∧ (C10.entrySp s' - 4).toNat < IO_START)
+    (hc : Rt.CellsOk (C10.entrySp s' - 4))
+    (l4 : s'.iregLookup 0xFE04 = none) (l6 : s'.iregLookup 0xFE06 = none) (lm : s'.iregLookup 0xFFFE = some .mcr)
+    (hem : Rt.Emits s'.dev ((C11.str msg).map (BitVec.ofNat 16)) d') :
+    ∃ k f, (Sim.step >>= fun _ => Rt.feN k) s = (.ok (), f) ∧ f.mcr = false ∧ f.dev = d' ∧
+      (∀ r, r ≠ 0 → r ≠ 7 → r ≠ R6 → f.reg r = s'.reg r) := by
+  obtain ⟨v0, v1, v2, t0, t1, t2, n0, n1, n2⟩ := exception_terms
+  obtain ⟨c0, c1, c2⟩ := exception_handlers
+  obtain ⟨q0, q1, q2, q3, q4⟩ := C08.real_trap_vectoring s s' hr
+  have key : ∀ (vd : (C11.osWord vect).isSome = true) (hchk : C11.chkMsg (C11.vec vect) msg (.trap 0x25) = true)
+      (hterm : Rt.chkMsgTerm (C11.vec vect) (C11.str msg).length = true) (hlen : (C11.str msg).length < 64)
+      (hstep : Sim.step s = handleInterrupt (BitVec.ofNat 16 vect) none s'),
+      ∃ k f, (Sim.step >>= fun _ => Rt.feN k) s = (.ok (), f) ∧ f.mcr = false ∧ f.dev = d' ∧
+        (∀ r, r ≠ 0 → r ≠ 7 → r ≠ R6 → f.reg r = s'.reg r) := by
+    intro vd hchk hterm hlen hstep
+    obtain ⟨k, f, hf, rest⟩ := Rt.exception_prints s' vect msg d' hos hs hr vd hchk hterm hlen h1 h2 h3 h4 hc l4 l6 lm hem
+    refine ⟨k, f, ?_, rest⟩
+    rw [SimM.bind_apply, hstep]
+    rw [SimM.bind_apply] at hf
+    exact hf
+  cases e <;> simp only [excVector, Option.some.injEq, Prod.mk.injEq, reduceCtorEq] at hv
+  · obtain ⟨rfl, rfl⟩ := hv; exact key v1 c1 t1 n1 (q2 hin)
+  · obtain ⟨rfl, rfl⟩ := hv; exact key v1 c1 t1 n1 (q3 hin)
+  · obtain ⟨rfl, rfl⟩ := hv; exact key v0 c0 t0 n0 (q1 hin)
+  · obtain ⟨rfl, rfl⟩ := hv; exact key v2 c2 t2 n2 (q4 hin)
+
+/-- **HALT under real traps stops through the OS.** A `TRAP x25` fetched and executed with real traps enabled
+    enters the OS routine, which clears the MCR bit (the run loop then stops: `Rt.mcr_off_stops`); R0-R5, the devices
+    and all memory below the I/O page except the two supervisor-stack cells are untouched -/
+theorem real_halt_through_os (s : Sim) (hos : Rt.OsLoaded s) (hs : s.flags.strict = false)
+    (hrt : s.flags.realTraps = true) (hat : Rt.AtTrap s 0x25)
+    (h1 : 767 ≤ (C10.entrySp s - 1).toNat ∧ (C10.entrySp s - 1).toNat < IO_START)
+    (h2 : 767 ≤ (C10.entrySp s - 2).toNat ∧ (C10.entrySp s - 2).toNat < IO_START)
+    (hm : s.iregLookup 0xFFFE = some .mcr) :
+    ∃ f, Rt.feN 3 s = (.ok (), f) ∧ f.mcr = false ∧ (∀ r, r ≠ 7 → r ≠ R6 → f.reg r = s.reg r) ∧ f.dev = s.dev ∧
+      (∀ a : W, a.toNat < IO_START → a ≠ C10.entrySp s - 1 → a ≠ C10.entrySp s - 2 → f.memAt a = s.memAt a) :=
+  Rt.halt_step s hos hs hrt hat h1 h2 hm
+
 def obligations : List Lean.Name :=
   [``lockstep, ``other_vectors_same, ``io_traps_not_virtual, ``virtual_breaks, ``exception_handlers,
-   ``RT.step_real_rel, ``RT.okSteps_real, ``RT.runLoop_real, ``real_step_same, ``real_prefix_same, ``real_run_same]
+   ``RT.step_real_rel, ``RT.okSteps_real, ``RT.runLoop_real, ``real_step_same, ``real_prefix_same, ``real_run_same,
+   ``exception_terms, ``Rt.msg_handler, ``Rt.exception_prints, ``real_exception_prints, ``real_halt_through_os]
 
 end Lc3V.C12
